@@ -4,6 +4,7 @@ package interp
 
 import (
 	"go/types"
+	"unsafe"
 )
 
 func init() {
@@ -123,5 +124,20 @@ func init() {
 			out = append(out, toSymstr(call(fr.i, fr, 0, m, []value{it.v}))...)
 		}
 		return normStr(out)
+	}
+}
+
+func init() {
+	// slices.overlaps compares element addresses through unsafe.Pointer/uintptr arithmetic
+	// (used by slices.Insert/Replace): decided here on the interpreter's own backing arrays.
+	externals["slices.overlaps"] = func(fr *frame, args []value) value {
+		a, _ := args[0].([]value)
+		b, _ := args[1].([]value)
+		if len(a) == 0 || len(b) == 0 {
+			return false
+		}
+		a0, aN := uintptr(unsafe.Pointer(&a[0])), uintptr(unsafe.Pointer(&a[len(a)-1]))
+		b0, bN := uintptr(unsafe.Pointer(&b[0])), uintptr(unsafe.Pointer(&b[len(b)-1]))
+		return a0 <= bN && b0 <= aN
 	}
 }
